@@ -2,6 +2,7 @@ import OmbottModel.Py
 import OmbottModel.Model.Router
 import OmbottModel.Model.RouterSpec
 import OmbottModel.Gen.Routeurl
+import OmbottModel.Py.IntLim
 /-!
 Executable model of URL building (`ombott/router/radirouter.py: Route.url`,
 `ombott/router/filter_factory.py`: the formatters of the `int`/`float` filters) and the small
@@ -37,11 +38,15 @@ def digitsValue (ds : Str) : Nat := ds.foldl (fun acc c => acc * 10 + (decDigit?
 def intVal (z : Int) : Val := .conv ("int:".toList ++ intStr z)
 
 /-- the handler `make_filter('int', …)` builds: `tmp = re.compile(r'-?\d+').match(param)`;
-no match ⇒ `(None, 0, None)`; else `(int(tmp.group()), tmp.end(), None)` -/
+no match ⇒ `(None, 0, None)`; `try: value = int(tmp.group())`, `except ValueError` — the matched run
+has more digits than the interpreter converts (`Gen.intMaxStrDigits`; every `\d` character counts,
+leading zeros included, the sign does not) ⇒ `(None, 0, None)` as well; else
+`(value, tmp.end(), None)` -/
 def intFilter (s : Str) : Option FilterRes :=
   let neg := s.head? == some '-'
   let ds := (if neg then s.drop 1 else s).takeWhile isDecDigit
   if ds.isEmpty then none
+  else if Gen.intMaxStrDigits < ds.length then none
   else some ⟨intVal (if neg then -(digitsValue ds : Int) else (digitsValue ds : Int)),
              ds.length + (if neg then 1 else 0), none⟩
 
@@ -53,9 +58,15 @@ def isIntFid (f : Fid) : Bool := fidName f == "int".toList
 /-- the filter environment with the `int` handler computed by the model instead of shipped -/
 def withInt (env : FilterEnv) : FilterEnv := fun f s => if isIntFid f then intFilter s else env f s
 
-/-- `lambda x: str(int(x))` on a value that is an `int` (as shipped: `int:<repr>`) -/
+/-- `lambda x: str(int(x))` on a value that is an `int` (as shipped: `int:<repr>`) of at most
+`Gen.intMaxStrDigits` digits; `str` of a longer one raises `ValueError` (`none`: the real formatter's
+answer is looked up in `FormatEnv`).  Values obtained by matching are never that long
+(`intFilter_spec_lim`). -/
 def intFmt : Val → Option Str
-  | .conv r => if "int:".toList.isPrefixOf r then some (r.drop 4) else none
+  | .conv r =>
+    if "int:".toList.isPrefixOf r then
+      (if Gen.intMaxStrDigits < intDigitCount (r.drop 4) then none else some (r.drop 4))
+    else none
   | .str _ => none
 
 /-! ## 2. output formatters, sanity check -/
